@@ -149,7 +149,11 @@ def build_world(ctx, wi, c, profile, pad=False):
     if pad:
         for i in range(1, PADS + 1):
             files[f"{wdir}/zpad{i}/x.go"] = f"package zpad{i}\n\ntype Pad{i} interface{{ P{i}() }}\n"
-            pkgs[f"{MOD}/{wdir}/zpad{i}"] = {"config": {"all": False, "recursive": False, "include-interface-regex": ""}}
+            # where no schema can reject them the padding packages are mocked too: > 8 output files, so the file map is
+            # iterated in a really different order every run (their events and files are outside the model)
+            pads_generate = g["mode"] in ("none", "same")
+            pkgs[f"{MOD}/{wdir}/zpad{i}"] = {"config": {"all": pads_generate, "recursive": False,
+                                                         **({} if pads_generate else {"include-interface-regex": ""})}}
     # the order in which the packages are written in the file is part of the (fixed) input; vary it between worlds
     keys = list(pkgs)
     ctx.rng.shuffle(keys)
@@ -303,7 +307,43 @@ def run_world(ctx, w, cap, min_runs):
                            "selected": [(e["pkg"], e["iface"]) for e in res.trace if e.get("ev") == "Select" and e.get("gen")]})
     w["runs"], w["reruns"] = runs, reruns
     w["seen1"], w["seenf"] = seen1, seenf
+    w["histories"] = histories(ctx, w) if reruns and all(x["exit"] == 0 for x in reruns) else []
     return w
+
+
+def histories(ctx, w):
+    """Re-runs over a tree whose previous output is NOT what this configuration wrote:
+       edited    every generated file got 60 comment lines appended by hand -> the run must restore the clean output
+       switched  the tree was produced by the other built-in template (same file names), then this configuration runs
+                 -> the result must equal a fresh run of this configuration.
+    Returns [{"what", "exit", "same", "diff"}]."""
+    out = []
+    clean = tree_hash(w["run"], skip=GO_TOOL_FILES)
+    base = tree_hash(w["base"], skip=GO_TOOL_FILES)
+    produced = [p for p, h in clean.items() if h != "DIR" and base.get(p) != h]
+    if not produced:
+        return out
+    for p in produced:
+        with open(w["run"] / p, "a") as f:
+            f.write("\n" + "// edited by hand after generation\n" * 60)
+    res = run_bin(ctx, w["cwd"], args=w["args"], timeout=240, tag="edit")
+    after = tree_hash(w["run"], skip=GO_TOOL_FILES)
+    out.append({"what": "edited", "exit": res.code, "same": res.code == 0 and after == clean, "diff": tree_diff(clean, after), "brief": res.brief()})
+    prof = w["profile"]
+    if prof and not prof.get("mixed") and not prof.get("data") and w["wi"] % 2 == 0:
+        other = "matryer" if prof["template"] == "testify" else "testify"
+        conf = json.loads((w["base"] / ".mockery.yml").read_text())
+        conf_other = json.loads(json.dumps(conf).replace('"mock-build-tags": "verifonly"', '"mock-build-tags": "verifonly"'))
+        conf_other["template"] = other
+        fresh(w)
+        (w["run"] / ".mockery.yml").write_text(json.dumps(conf_other, indent=1))
+        r1 = run_bin(ctx, w["cwd"], args=w["args"], timeout=240, tag="sw1")
+        (w["run"] / ".mockery.yml").write_text(json.dumps(conf, indent=1))
+        r2 = run_bin(ctx, w["cwd"], args=w["args"], timeout=240, tag="sw2")
+        after = tree_hash(w["run"], skip=GO_TOOL_FILES)
+        out.append({"what": "switched", "exit": r2.code if r1.code == 0 else -1, "same": r1.code == 0 and r2.code == 0 and after == clean,
+                    "diff": tree_diff(clean, after), "brief": (r2 if r1.code == 0 else r1).brief()})
+    return out
 
 
 def tree_diff(a, b):
@@ -328,6 +368,7 @@ def project_run(w, trace, code):
     # matter of the naming variant; the model only says which mocks share a file)
     perpkg = w["c"]["W"]["g"]["layout"] == "perpkg"
     file_id = {}
+    current_in_model = True
     for e in trace:
         if e.get("ev") == "Collect":
             k, j = kj(e["pkg"], e["iface"])
@@ -345,9 +386,14 @@ def project_run(w, trace, code):
             out.append({"op": "collect", "k": k, "j": j, "e": ent})
         elif ev in ("FileBegin", "Write"):
             fp = os.path.normpath(e["file"] if os.path.isabs(e["file"]) else os.path.join(str(w["cwd"]), e["file"]))
+            in_model = fp in file_id                         # every model file that is rendered was collected before
+            if ev == "FileBegin":
+                current_in_model = in_model
+            if not in_model:
+                continue                                   # a padding package's file
             fk, fj = file_id.get(fp, (0, 9))
             out.append({"op": "filebegin" if ev == "FileBegin" else "write", "fk": fk, "fj": fj})
-        elif ev == "Stage" and not e.get("ok"):
+        elif ev == "Stage" and not e.get("ok") and current_in_model:
             out.append({"op": "stagefail", "fk": -1, "fj": -1, "stage": e.get("stage", "")})
         elif ev == "Exit":
             out.append({"op": "exit", "code": int(e.get("code", -1))})
@@ -505,7 +551,7 @@ def run(ctx):
     tick(ctx, "runs", t0)
     t0 = time.time()
     events = []
-    n_runs = n_ok_multi = n_fail_worlds = n_idem = 0
+    n_runs = n_ok_multi = n_fail_worlds = n_idem = n_hist = 0
     orders_evidence = []
     for w in worlds:
         c, prof = w["c"], w["profile"]
@@ -548,6 +594,11 @@ def run(ctx):
                     ctx.violation({"kind": "not-idempotent", "what": what, **base_sig},
                                   {**det, "rerun": n + 1, "diff": d, "selected_in_rerun": rr["selected"][:20]})
                     break
+        for h in w.get("histories", []):
+            n_hist += 1
+            if not h["same"]:
+                ctx.violation({"kind": "history-dependent-output", "what": h["what"], **base_sig},
+                              {**det, "history": h["what"], "exit": h["exit"], "diff": h["diff"], "run": h["brief"]})
         # drift: the observed outcome vs the contract outcome of Order.tla (not a C06 verdict)
         if exits and set(exits) != {c["outcome"]["exit"]} and len(exits) == 1:
             ctx.note(f"drift: world {w['wi']} ({pname}, {g}) exits {list(exits)[0]}, Order.tla says {c['outcome']['exit']}: "
@@ -634,6 +685,7 @@ def run(ctx):
     ctx.cov["worlds_run"] = len(worlds)
     ctx.cov["runs"] = n_runs
     ctx.cov["worlds_rerun_for_idempotence"] = n_idem
+    ctx.cov["reruns_over_edited_or_other_template_output"] = n_hist
     ctx.cov["orders_observed"] = orders_evidence[:40]
     ctx.cov["distinct_nontrivial"] = len(worlds)
     ctx.cov["rule"] = "a world = package tree + configuration + generation profile; non-trivial = several output files or a failing file"
